@@ -513,18 +513,74 @@ func c17Client(ctx *Ctx, p *c17Proc, cfg c17Cfg, r *hv.Rng, full bool) {
 	if !full {
 		depths = []int{100000}
 	}
-	for _, d := range depths {
-		for _, open := range []string{"[", "(", "{", "f("} {
-			if d > 1<<20 && open != "[" && !ctx.Thorough {
+	for di, d := range depths {
+		// the statement is only parsed when the proxy has to decide whether it may be retried: the first attempt is answered
+		// OVERLOADED.  "(a<" nests the type parameters of a cast, "f(" function calls.
+		for oi, open := range []string{"[", "(", "{", "f(", "(a<", "(int)"} {
+			if d > 1<<20 && open != "[" && open != "f(" && open != "(a<" && !ctx.Thorough {
 				continue
 			}
 			n := d / len(open)
-			q := "INSERT INTO t (a) VALUES (" + strings.Repeat(open, n)
+			tok := fmt.Sprintf("deep%dx%dx%d", ctx.Seed%1000, di, oi)
+			p.be.SetScript(tok, fb.Outcome{Kind: fb.ErrMsg, Msg: &message.Overloaded{ErrorMessage: "scripted"}}, fb.Outcome{Kind: fb.OkRows})
+			q := "INSERT INTO t (k, a) VALUES ('tok:" + tok + "', " + strings.Repeat(open, n)
 			body := append(longString(q), 0, 1, 0)
 			p.clientStream(ctx, 8, fmt.Sprintf("QUERY nesting %q x %d", open, n), p.cver, frameBytes(byte(p.cver), 0, 2, byte(primitive.OpCodeQuery), body), true, "deep-nesting")
+			if d <= 1<<20 || ctx.Thorough || open == "(a<" {
+				pq := "INSERT INTO t (k, a) VALUES (?, " + strings.Repeat(open, n)
+				p.clientStream(ctx, 8, fmt.Sprintf("PREPARE nesting %q x %d", open, n), p.cver, frameBytes(byte(p.cver), 0, 2, byte(primitive.OpCodePrepare), longString(pq)), true, "deep-nesting")
+			}
 		}
 		q := "UPDATE t SET a = 1 WHERE " + strings.Repeat("(", d)
 		p.clientStream(ctx, 8, fmt.Sprintf("PREPARE relation nesting x %d", d), p.cver, frameBytes(byte(p.cver), 0, 2, byte(primitive.OpCodePrepare), longString(q)), true, "deep-nesting")
+	}
+	// (9) prepared ids of every length 0..20 that the proxy has never seen, in EXECUTE and as BATCH children, whose first
+	// attempt is answered with an error that makes the proxy look the id up (is it idempotent?)
+	p.be.SetScriptBeforeUnprepared(true)
+	defer p.be.SetScriptBeforeUnprepared(false)
+	for l := 0; l <= 20; l++ {
+		if !full && l%5 != 3 {
+			continue
+		}
+		id := make([]byte, l)
+		for i := range id {
+			id[i] = byte(0xa0 + i)
+		}
+		for k := 0; k < 2; k++ {
+			tok := fmt.Sprintf("sid%dx%dx%d", ctx.Seed%1000, l, k)
+			p.be.SetScript(tok, fb.Outcome{Kind: fb.ErrMsg, Msg: &message.Overloaded{ErrorMessage: "scripted"}}, fb.Outcome{Kind: fb.OkRows})
+			val := []*primitive.Value{primitive.NewValue([]byte("tok:" + tok))}
+			var body []byte
+			var op primitive.OpCode
+			if k == 0 {
+				// EXECUTE: [short bytes] id, (result metadata id for v5/DSEv2), consistency, flags 0x01, values
+				body = append(body, byte(l>>8), byte(l))
+				body = append(body, id...)
+				if p.cver.SupportsResultMetadataId() {
+					body = append(body, byte(l>>8), byte(l))
+					body = append(body, id...)
+				}
+				body = append(body, 0, 1, 0x01, 0, 1, 0, 0, 0, byte(len(val[0].Contents)))
+				if p.cver >= primitive.ProtocolVersion5 {
+					body = append(body[:len(body)-9], 0, 1, 0, 0, 0, 0x01, 0, 1, 0, 0, 0, byte(len(val[0].Contents)))
+				}
+				body = append(body, val[0].Contents...)
+				op = primitive.OpCodeExecute
+			} else {
+				// BATCH: type, one child by id with one value, consistency, flags
+				body = append(body, 0, 0, 1, 1, byte(l>>8), byte(l))
+				body = append(body, id...)
+				body = append(body, 0, 1, 0, 0, 0, byte(len(val[0].Contents)))
+				body = append(body, val[0].Contents...)
+				body = append(body, 0, 1, 0)
+				if p.cver >= primitive.ProtocolVersion5 {
+					body = append(body, 0, 0, 0)
+				}
+				op = primitive.OpCodeBatch
+			}
+			p.clientStream(ctx, 8, fmt.Sprintf("%v with an unknown %d-byte prepared id, first attempt answered OVERLOADED", op, l), p.cver,
+				frameBytes(byte(p.cver), 0, 2, byte(op), body), true, "short-prepared-id")
+		}
 	}
 }
 
